@@ -422,6 +422,16 @@ func runShard(p *Prop, ph *Phase, tier string, seed int64, bindir, work string, 
 			}
 		}
 		class, top := classifyCrash(stderrTail)
+		if class == "exit" && top == "none" {
+			// No Go panic, no fatal error, no gocql frame: the process was ended from outside (OOM killer, the
+			// race runtime's goroutine limit, a signal). That says nothing about the property.
+			o.incon["worker-died"] = fmt.Sprintf("worker %d of phase %s ended with status %d at case %d without a panic or fatal error: %s", k, ph.Name, code, lastB, oneLine(lastLines(stderrTail, 6)))
+			start = lastB + 1
+			if lastB < 0 {
+				return o
+			}
+			continue
+		}
 		if class == "harness" {
 			o.broken = append(o.broken, fmt.Sprintf("worker for phase %s crashed inside the harness at case %d: %s", ph.Name, lastB, lastLines(stderrTail, 30)))
 			return o
